@@ -469,14 +469,30 @@ pub fn run(ctx: Ctx) -> Report {
             .await;
         }
         let mut results = results.lock().unwrap().clone();
-        for (c, r) in results.iter_mut() {
-            if matches!(r, Ok(o) if o.origin.is_none() || !o.note.is_empty()) || r.is_err() {
-                // seen under 32-fold concurrency: confirm alone (same bytes, fresh token is not needed: the
-                // earlier attempt never produced the end marker)
-                let again = run_case(&w, c).await;
+        // seen under 32-fold concurrency: confirm with little else going on (same bytes; a fresh token is not needed:
+        // the earlier attempt never produced the end marker). At most 40 cases, 4 at a time: a tree on which more
+        // than that fail is not suffering from load, and every retry may wait out its full bound.
+        let retry: Vec<usize> = results.iter().enumerate().filter(|(_, (_, r))| matches!(r, Ok(o) if o.origin.is_none() || !o.note.is_empty()) || r.is_err()).map(|(i, _)| i).take(40).collect();
+        if !retry.is_empty() {
+            let again: Arc<Mutex<Vec<(usize, Result<Outcome, String>)>>> = Arc::new(Mutex::new(Vec::new()));
+            let jobs: Vec<(usize, HttpCase)> = retry.iter().map(|i| (*i, results[*i].0.clone())).collect();
+            {
+                let w = w.clone();
+                let again = again.clone();
+                netkit::for_each_limited(jobs, 4, move |(i, c)| {
+                    let w = w.clone();
+                    let again = again.clone();
+                    async move {
+                        let r = run_case(&w, &c).await;
+                        again.lock().unwrap().push((i, r));
+                    }
+                })
+                .await;
+            }
+            for (i, r) in again.lock().unwrap().drain(..) {
                 rep.add("requests_retried_in_isolation", 1);
-                if again.is_ok() {
-                    *r = again;
+                if r.is_ok() {
+                    results[i].1 = r;
                 }
             }
         }
